@@ -8,7 +8,7 @@ import Posmint.Lemmas.ChainWindow
 the counter is the number of misses among the last `w` entries.
 -/
 namespace Posmint.Props.C08
-open Posmint.Chain Posmint.Arith
+open Posmint.Chain Posmint.Chain.C Posmint.Arith
 
 /-- A fresh signing info with no bits represents the empty history. -/
 theorem window_init (w : Nat) (a : Addr) (start ju : Int) (tomb : Bool) (bits : List ((Addr × Int) × Bool))
